@@ -149,6 +149,18 @@ fn generated(rng: &mut Rng, k: usize) -> Design {
             if rng.chance(1, 2) {
                 add("Medium", vec![("Weight".into(), 600.)], 25.0, &mut des, rng);
             }
+            // every second single-axis design: glyphs that mix a contour and a component exist only at the outer masters,
+            // their bases at two more: the composite is interpolated at >= 2 missing locations when it is turned into a
+            // simple glyph (batch_interpolate_missing; the locations come out of a HashSet)
+            if k % 2 == 0 {
+                add("Semi", vec![("Weight".into(), 750.)], 40.0, &mut des, rng);
+                if des.masters.len() < 4 {
+                    add("Book", vec![("Weight".into(), 500.)], 12.0, &mut des, rng);
+                }
+                for m in des.masters.iter_mut().skip(2) {
+                    m.glyphs.retain(|g| g.components.is_empty() || g.contours.is_empty());
+                }
+            }
         }
         // instances whose names repeat other name strings (name-id reuse paths)
         des.instances.push(InstanceSrc { family: des.family.clone(), style: "Regular".into(), postscript: None, location: des.masters[0].location.clone() });
@@ -379,6 +391,10 @@ fn main() {
                 emit_violation("nondeterministic-outcome", format!("{name}: {} of {builds} identical builds failed while the others succeeded", builds - outs.len()), json!({"source": name}));
             } else {
                 unbuildable += 1;
+                if std::env::var("VERIF_C01_WHY").is_ok() {
+                    let o = Command::new(&exe).arg("--child").arg(path).arg(scratch.path().join("why.ttf")).output().expect("spawn child");
+                    eprintln!("does not compile: {name}: {}", String::from_utf8_lossy(&o.stderr).lines().last().unwrap_or(""));
+                }
             }
             continue;
         }
